@@ -182,7 +182,8 @@ func (*Thread).opDivideInt
   props C08 C06
   requires wfStack(vm) && soff(vm) >= 2 && foff(vm) <= soff(vm) - 2 && isInt(second(vm)) && wfv(top(vm))
   ensures sp: soff(vm) == old(soff(vm)) - 1 && vm.fp == old(vm.fp) && vm.stack == old(vm.stack)
-  ensures err: (ret.flag == value.UNDEFINED_FLAG <==> old(snd(value.DivideVal(second(vm), top(vm)))).flag == value.UNDEFINED_FLAG) && (ret.flag != value.UNDEFINED_FLAG ==> ret == old(snd(value.DivideVal(second(vm), top(vm)))))
+  ensures errS: old(isSmall(second(vm))) ==> (ret.flag == value.UNDEFINED_FLAG <==> old(snd(value.DivideVal(second(vm), top(vm)))).flag == value.UNDEFINED_FLAG) && (ret.flag != value.UNDEFINED_FLAG ==> ret == old(snd(value.DivideVal(second(vm), top(vm)))))
+  ensures errB: old(isBig(second(vm))) ==> (ret.flag == value.UNDEFINED_FLAG <==> old(snd(value.DivideVal(second(vm), top(vm)))).flag == value.UNDEFINED_FLAG) && (ret.flag != value.UNDEFINED_FLAG ==> ret == old(snd(value.DivideVal(second(vm), top(vm)))))
   ensures sameS: ret.flag == value.UNDEFINED_FLAG && old(isSmall(second(vm))) ==> top(vm) == old(fst(value.DivideVal(second(vm), top(vm))))
   ensures sameB: ret.flag == value.UNDEFINED_FLAG && old(isBig(second(vm))) ==> top(vm) == old(fst(value.DivideVal(second(vm), top(vm))))
 
@@ -190,7 +191,8 @@ func (*Thread).opModuloInt
   props C08 C06
   requires wfStack(vm) && soff(vm) >= 2 && foff(vm) <= soff(vm) - 2 && isInt(second(vm)) && wfv(top(vm))
   ensures sp: soff(vm) == old(soff(vm)) - 1 && vm.fp == old(vm.fp) && vm.stack == old(vm.stack)
-  ensures err: (ret.flag == value.UNDEFINED_FLAG <==> old(snd(value.ModuloVal(second(vm), top(vm)))).flag == value.UNDEFINED_FLAG) && (ret.flag != value.UNDEFINED_FLAG ==> ret == old(snd(value.ModuloVal(second(vm), top(vm)))))
+  ensures errS: old(isSmall(second(vm))) ==> (ret.flag == value.UNDEFINED_FLAG <==> old(snd(value.ModuloVal(second(vm), top(vm)))).flag == value.UNDEFINED_FLAG) && (ret.flag != value.UNDEFINED_FLAG ==> ret == old(snd(value.ModuloVal(second(vm), top(vm)))))
+  ensures errB: old(isBig(second(vm))) ==> (ret.flag == value.UNDEFINED_FLAG <==> old(snd(value.ModuloVal(second(vm), top(vm)))).flag == value.UNDEFINED_FLAG) && (ret.flag != value.UNDEFINED_FLAG ==> ret == old(snd(value.ModuloVal(second(vm), top(vm)))))
   ensures sameS: ret.flag == value.UNDEFINED_FLAG && old(isSmall(second(vm))) ==> top(vm) == old(fst(value.ModuloVal(second(vm), top(vm))))
   ensures sameB: ret.flag == value.UNDEFINED_FLAG && old(isBig(second(vm))) ==> top(vm) == old(fst(value.ModuloVal(second(vm), top(vm))))
 
